@@ -363,6 +363,57 @@ func scenarioHeldVsNewVersion(bound int) *vh.SchedScenario {
 	}}
 }
 
+// scenarioChainTwoConnections (C04): file a and its successor b (predecessor a) complete on two
+// connections at the same time, so that their validations and their pushes onto the finalize
+// chain interleave. b must never be logged / delivered before a.
+func scenarioChainTwoConnections(bound int) *vh.SchedScenario {
+	return &vh.SchedScenario{Name: "chain-on-two-connections", Bound: bound, Build: func(x *vrt.Sched) func(*vrt.Sched) (string, string, string) {
+		files := []*sFile{
+			{Key: "a1", Name: "a", Data: "AAAA", Cuts: []int64{0, 4}},
+			{Key: "b1", Name: "b", Prev: "a", Data: "BBBB", Cuts: []int64{0, 4}},
+		}
+		sw := newSchedWorld(files)
+		x.Go("conn1", func() { sw.recv("a1", 0, false) })
+		x.Go("conn2", func() { sw.recv("b1", 0, false) })
+		return func(x *vrt.Sched) (string, string, string) {
+			defer sw.close()
+			if x.Deadlock != "" || x.Diverged != "" {
+				return "", "", ""
+			}
+			final, log, stage := sw.finish()
+			ia, ib := -1, -1
+			for i, rec := range log {
+				switch strings.Split(rec, "|")[0] {
+				case "a":
+					if ia < 0 {
+						ia = i
+					}
+				case "b":
+					if ib < 0 {
+						ib = i
+					}
+				}
+			}
+			if ib >= 0 && (ia < 0 || ib < ia) {
+				return fmt.Sprintf("b (predecessor a) is logged as received before a: log=%v final=%v", log, final), sw.class(), ""
+			}
+			if len(final) != 2 {
+				return fmt.Sprintf("a and b were both acknowledged, yet not both were delivered: final=%v log=%v stage=%v", final, log, stageNames(stage)), sw.class(), ""
+			}
+			return "", "", fmt.Sprintf("log=%v", log)
+		}
+	}}
+}
+
+func TestC04Sched(t *testing.T) {
+	b := 1
+	if vh.Thorough() {
+		b = 2
+	}
+	runSchedScenarios(t, "C04", "a file and its successor completing on two connections (E-SCHED)", []*vh.SchedScenario{scenarioChainTwoConnections(b)},
+		fmt.Sprintf("all interleavings with <= %d preemptions of two connections delivering a single-part file and its successor (announced predecessor = the first file), with the stage's validators, finalizer and the goroutines that push onto the finalize chain", b))
+}
+
 func runSchedScenarios(t *testing.T, prop, partName string, scs []*vh.SchedScenario, bound string) {
 	rep := vh.NewReport(prop, partName)
 	defer rep.Write()
@@ -521,7 +572,7 @@ func TestSchedRace(t *testing.T) {
 	n := 40
 	for _, sc := range []*vh.SchedScenario{
 		scenarioTwoParts(false, 0), scenarioTwoParts(true, 0), scenarioTwoFiles(false, 0), scenarioTwoFiles(true, 0),
-		scenarioNewVersion(0), scenarioCleanVsTransfer(false, 0), scenarioCleanVsTransfer(true, 0), scenarioRecoveryWindow(0),
+		scenarioNewVersion(0), scenarioChainTwoConnections(0), scenarioHeldVsNewVersion(0), scenarioCleanVsTransfer(false, 0), scenarioCleanVsTransfer(true, 0), scenarioRecoveryWindow(0),
 	} {
 		vh.FreeRunSched(t, rep, sc, n)
 	}
